@@ -255,3 +255,85 @@ pub fn unfolded_function<B: Fld, E: FieldElement<BaseField = B>>(rng: &mut crate
         _ => go::<B, E, 16>(rng, domain, layers, parts, coord, rem_coeffs),
     }
 }
+
+/// "rows made up after the queries": the honest proof of a LOW-degree polynomial `g` is taken and, in
+/// the rows of the first layer that the queries open, the queried entries are overwritten with the
+/// values of another function `f` at those positions while one unqueried entry of the same row is
+/// adjusted so that the row still folds to the same value (folding is linear in the row). All
+/// folding and remainder checks then pass for the claim "f is low degree"; only the Merkle opening of
+/// the first layer can tell. `parts_byte` is written into the proof's partition field unchanged
+/// (a value with 2^byte > rows makes every leaf index collapse to 0).
+pub fn forged_first_layer<B: Fld, E: FieldElement<BaseField = B>, H: ElementHasher<BaseField = B>>(
+    g: &[E],
+    f: &[E],
+    options: &FriOptions,
+    positions: &[usize],
+    parts_byte: u8,
+) -> Option<ManualProof<H>> {
+    fn go<B: Fld, E: FieldElement<BaseField = B>, H: ElementHasher<BaseField = B>, const N: usize>(g: &[E], f: &[E], options: &FriOptions, positions: &[usize], parts_byte: u8) -> Option<ManualProof<H>> {
+        use winter_crypto::RandomCoin;
+        if options.num_fri_layers(g.len()) == 0 {
+            return None;
+        }
+        let honest = manual_prove_n::<B, E, H, N>(g, options, positions, 0, RowCoord::DomainPosition)?;
+        let mut bytes = honest.proof.to_bytes();
+        // first layer's challenge
+        let mut coin = DefaultRandomCoin::<H>::new(&[]);
+        coin.reseed(honest.commitments[0]);
+        let alpha: E = coin.draw().ok()?;
+        let domain = g.len();
+        let rows = domain / N;
+        let gen = B::get_root_of_unity(domain.ilog2());
+        let w = B::get_root_of_unity(N.ilog2());
+        let folded = winter_fri::folding::fold_positions(positions, domain, N);
+        // layout of the serialized proof: [layers u8][u32 len][values of layer 0 ...]
+        let values_off = 1 + 4;
+        let eb = E::ELEMENT_BYTES;
+        for (k, &r) in folded.iter().enumerate() {
+            let mut row: Vec<E> = (0..N).map(|l| g[r + l * rows]).collect();
+            let queried: Vec<usize> = (0..N).filter(|l| positions.contains(&(r + l * rows))).collect();
+            let free = (0..N).find(|l| !queried.contains(l))?;
+            // Lagrange coefficients of the row's nodes x_r * w^l at alpha
+            let xr = B::GENERATOR * gen.exp_vartime(B::pi(r as u128));
+            let nodes: Vec<E> = (0..N).scan(B::ONE, |wl, _| { let v = E::from(xr * *wl); *wl *= w; Some(v) }).collect();
+            let coef = |l: usize| -> E {
+                let mut num = E::ONE;
+                let mut den = E::ONE;
+                for m in 0..N {
+                    if m != l {
+                        num *= alpha - nodes[m];
+                        den *= nodes[l] - nodes[m];
+                    }
+                }
+                num / den
+            };
+            let mut delta = E::ZERO;
+            for &l in &queried {
+                let new = f[r + l * rows];
+                delta += coef(l) * (new - row[l]);
+                row[l] = new;
+            }
+            let cf = coef(free);
+            if cf == E::ZERO {
+                return None;
+            }
+            row[free] -= delta / cf;
+            // overwrite row k of the first layer's values
+            let at = values_off + k * N * eb;
+            let mut rb = Vec::new();
+            for e in &row {
+                e.write_into(&mut rb);
+            }
+            bytes.get_mut(at..at + N * eb)?.copy_from_slice(&rb);
+        }
+        let last = bytes.len() - 1;
+        bytes[last] = parts_byte;
+        Some(ManualProof { proof: FriProof::read_from_bytes(&bytes).ok()?, commitments: honest.commitments })
+    }
+    match options.folding_factor() {
+        2 => go::<B, E, H, 2>(g, f, options, positions, parts_byte),
+        4 => go::<B, E, H, 4>(g, f, options, positions, parts_byte),
+        8 => go::<B, E, H, 8>(g, f, options, positions, parts_byte),
+        _ => go::<B, E, H, 16>(g, f, options, positions, parts_byte),
+    }
+}
